@@ -438,6 +438,49 @@ func (c *Ctx) initFuncsOf(rel string) map[*ssa.Function]bool {
 			out[f] = true
 		}
 	}
+	// stages of initialisation: package functions that are called from initialisers only (and from nowhere else
+	// in the module, nor used as values) run exactly when the initialisers run
+	callers := map[*ssa.Function]map[*ssa.Function]bool{}
+	usedAsValue := map[*ssa.Function]bool{}
+	for _, f := range c.moduleFuncs() {
+		instrs(f, func(in ssa.Instruction) {
+			var ops []*ssa.Value
+			for _, op := range in.Operands(ops) {
+				if g, ok := (*op).(*ssa.Function); ok {
+					if ci, isCall := in.(ssa.CallInstruction); isCall && ci.Common().Value == ssa.Value(g) {
+						if callers[g] == nil {
+							callers[g] = map[*ssa.Function]bool{}
+						}
+						callers[g][f] = true
+					} else {
+						usedAsValue[g] = true
+					}
+				}
+			}
+		})
+	}
+	for changed := true; changed; {
+		changed = false
+		for _, m := range sp.Members {
+			g, ok := m.(*ssa.Function)
+			if !ok || out[g] || usedAsValue[g] || len(callers[g]) == 0 {
+				continue
+			}
+			if n := g.Name(); n[0] >= 'A' && n[0] <= 'Z' {
+				continue
+			}
+			only := true
+			for caller := range callers[g] {
+				if !out[caller] {
+					only = false
+				}
+			}
+			if only {
+				out[g] = true
+				changed = true
+			}
+		}
+	}
 	return out
 }
 
